@@ -475,6 +475,34 @@ example : Golib.Gen.Trans.C15.HexEncode [0#8, 171#8, 255#8] = .ok [48#8, 48#8, 9
     Golib.Gen.Trans.C15.hexEncode [1#8, 2#8, 3#8] [171#8] = .ok (2, [97#8, 98#8, 3#8]) ∧
     Golib.Gen.Trans.C15.hexEncode [1#8] [171#8] = .panic := by
   refine ⟨?_, ?_, ?_⟩ <;> decide +kernel
+
+/-- TIE: the translated `hexDecode(dst, src)` (generic: one translation; `dst` in-out; `error` as the
+class `GoSem.Err`: nil / the `fmt.Errorf` format with the offending byte / `hex.ErrLength`) for EVERY
+`src` and every `dst` with room (`len(src)/2 ≤ len(dst)`): it returns `Tie.decRes src dst` — count,
+error class and final buffer of the pair loop `Tie.decF` — and `Tie.model_dec` shows that loop IS the
+model's `hexDecodeLoop` on the byte lists (`some`, i.e. no panic).  Error precedence (invalid byte
+before odd length) is part of the statement. -/
+theorem c15_trans_hexDecode (dst src : List (BitVec 8)) (h : src.length / 2 ≤ dst.length) :
+    Golib.Gen.Trans.C15.hexDecode dst src = .ok (Tie.decRes src dst) ∧
+    hexDecodeLoop (Tie.bytesOf src) (Tie.bytesOf dst) 0 = some (Tie.modelOf (Tie.decF src dst 0)) :=
+  ⟨Tie.trans_hexDecode_eq dst src h, Tie.model_dec src dst 0 (by omega)⟩
+
+/-- TIE: the translated `HexDecode` (`make`, `hexDecode`, `dst[:n]`) equals the model's `hexDecode?` —
+the definition `c15_hex_decode_encode`, `c15_hex_error_precedence`, `c15_hex_decode_valid` and
+`c15_hex_decode_total` are about — on EVERY string: the model answers `some (out, e)` and the code
+returns `out` with the error class of `e`; neither the writes nor `dst[:n]` can panic. -/
+theorem c15_trans_HexDecode (s : List (BitVec 8)) :
+    ∃ out e, hexDecode? (Tie.bytesOf s) = some (Tie.bytesOf out, e) ∧
+      Golib.Gen.Trans.C15.HexDecode s = .ok (out, Tie.errOf e) :=
+  Tie.trans_HexDecode_eq s
+
+/-- Non-vacuity: `"00Abf"` decodes two bytes then reports the odd length; `"0g1"` reports `g` first. -/
+example : Golib.Gen.Trans.C15.HexDecode [48#8, 48#8, 65#8, 98#8, 102#8]
+      = .ok ([0#8, 171#8], GoSem.Err.mk "encoding/hex.ErrLength" []) ∧
+    Golib.Gen.Trans.C15.HexDecode [48#8, 103#8, 49#8]
+      = .ok ([], GoSem.Err.mk "encoding/hex: invalid byte: %#U" [103]) ∧
+    Golib.Gen.Trans.C15.HexDecode [102#8, 70#8] = .ok ([255#8], GoSem.Err.nil) := by
+  refine ⟨?_, ?_, ?_⟩ <;> decide +kernel
 -- END wave-8 tie block (trans-strconv)
 
 end Golib.C15
